@@ -227,14 +227,30 @@ def run_driver(ctx, args, env=None, timeout=1200, name="driver"):
 # ----------------------------------------------------------------------------------------------
 # Traces
 # ----------------------------------------------------------------------------------------------
+DAMAGED = {"lines": 0, "segments": 0}
+
+
 def read_ndjson(path):
+    """A process that is killed while it appends an event can leave a torn line (the next writer's
+    line is glued to it). Such a line is not evidence of anything: it is replaced by a marker, and the
+    segment that contains the marker is set aside (not judged) by split_segments."""
     out = []
-    with open(path) as f:
+    with open(path, errors="replace") as f:
         for line in f:
             line = line.strip()
             if not line:
                 continue
-            out.append(json.loads(line))
+            try:
+                out.append(json.loads(line))
+            except ValueError:
+                DAMAGED["lines"] += 1
+                out.append({"ev": "DamagedLine", "raw": line[:200]})
+                k = line.rfind('{"ev":')
+                if k > 0:
+                    try:
+                        out.append(json.loads(line[k:]))
+                    except ValueError:
+                        pass
     return out
 
 
@@ -249,7 +265,9 @@ def split_segments(events):
             if not segs:
                 segs.append([{"ev": "Reset", "seg": "seg0", "sig": "seg0"}])
             segs[-1].append(e)
-    return segs
+    whole = [s for s in segs if not any(e.get("ev") == "DamagedLine" for e in s)]
+    DAMAGED["segments"] += len(segs) - len(whole)
+    return whole
 
 
 def validate_segments(ctx, module, cfg, segs, max_unknown=6, env=None, deque=False, timeout=900, batch=None):
@@ -382,6 +400,8 @@ def failures_from_segments(ctx, failures, describe=None):
 
 def finish(ctx, level_extra=None):
     wall = time.time() - ctx.t0
+    if DAMAGED["lines"]:
+        ctx.notes.append("%d torn trace line(s) (a process was killed while writing an event); %d segment(s) containing one were set aside, not judged" % (DAMAGED["lines"], DAMAGED["segments"]))
     ev = {
         "property_id": ctx.pid,
         "tier": ctx.tier,
@@ -438,6 +458,17 @@ def main(pid, fn):
         try:
             ctx.level = "other"
             finish(ctx, {"explanation": "run was inconclusive: %s" % ex})
+        except Exception:
+            pass
+        rc = 2
+    except Exception as ex:       # a fault of the machinery itself is never a verdict about the code
+        import traceback
+        traceback.print_exc()
+        print("INCONCLUSIVE property=%s: internal error of the checking machinery: %r" % (pid, ex))
+        ctx.notes.append("inconclusive: internal error %r" % ex)
+        try:
+            ctx.level = "other"
+            finish(ctx, {"explanation": "run was inconclusive: internal error %r" % ex})
         except Exception:
             pass
         rc = 2
